@@ -543,9 +543,9 @@ func realTimeEmit(prop string, total int, tick time.Duration, fk bool) {
 
 var _ = slices.Sort[[]int]
 
-// ---------------------------------------------------------------- Join of many inputs of bulky elements (thorough tier: ~300 MB)
+// ---------------------------------------------------------------- Join of many inputs of bulky elements (thorough tier: ~300 MB of goroutine stacks)
 
-type mib [1 << 20]byte
+type mib [65000]byte // (channel elements are limited to 64 KiB)
 
 func init() {
 	progs["join-quiet-feeds-bulky"] = func(c *caseT) string {
@@ -576,7 +576,7 @@ func init() {
 				return "the element arrived damaged"
 			}
 		default:
-			return fmt.Sprintf("the element sent on input %d of %d (all open, unbuffered, 1 MiB elements) is not offered on the output at quiescence", k-1, k)
+			return fmt.Sprintf("the element sent on input %d of %d (all open, unbuffered, 64 KB elements) is not offered on the output at quiescence", k-1, k)
 		}
 		for i := range ins {
 			close(ins[i])
@@ -592,7 +592,7 @@ func progsJoinBulky(t *testing.T, prop string) {
 	if !common.Thorough() {
 		return
 	}
-	for _, k := range []int{8, 300} {
+	for _, k := range []int{8, 4200} {
 		runProg(t, prop, &caseT{Stage: "prog/join-quiet-feeds-bulky", N: k})
 	}
 }
